@@ -182,7 +182,7 @@ func runCheck(eng *Eng, id, tier string, replay, keep bool, only string) int {
 	} else {
 		fmt.Fprintln(os.Stderr, "SMT files kept in", workDir)
 	}
-	timeout := 20
+	timeout := 25
 	if tier == "thorough" {
 		timeout = 120
 	}
@@ -296,6 +296,26 @@ func runCheck(eng *Eng, id, tier string, replay, keep bool, only string) int {
 			// a cover only has to avoid being refuted: a short budget is enough (unknown counts as reachable)
 			r := runPortfolio(workDir, c.Name, q, nil, 4, false)
 			c.Result = &r
+		}()
+	}
+	wg.Wait()
+	// second chance for obligations nobody decided (solver incompleteness / a loaded machine): longer budget
+	for _, o := range allObls {
+		o := o
+		if o.Result.Status == "unsat" || o.Result.Status == "sat" {
+			continue
+		}
+		wg.Add(1)
+		go func() {
+			defer wg.Done()
+			sem <- struct{}{}
+			defer func() { <-sem }()
+			extra := kf.carveOut(id, o)
+			q := o.task.query(o, extra)
+			r := runPortfolio(workDir, o.Name+".retry", q, o.task.modelSyms, timeout*5, false)
+			if r.Status == "unsat" || r.Status == "sat" {
+				o.Result = &r
+			}
 		}()
 	}
 	wg.Wait()
@@ -544,7 +564,38 @@ func (t *Task) proveLemma(l *Lemma) {
 		}
 	}
 	for _, h := range l.Hints {
-		t.assume(tTrue, env.evalBool(h, l.Src))
+		// a hint is "use otherLemma(args)": an instance of another machine-checked lemma
+		h = strings.TrimSpace(strings.TrimPrefix(strings.TrimSpace(h), "use "))
+		if f := t.lemmaInstance(env, Clause{Expr: h, Src: l.Src}); f != "" {
+			t.assume(tTrue, f)
+		}
+	}
+	if strings.HasPrefix(strings.TrimSpace(l.By), "induction ") {
+		// by induction <var> from <expr>: base case and step (the induction principle is the tool's meta-rule)
+		f := strings.Fields(strings.TrimSpace(l.By))
+		if len(f) != 4 || f[2] != "from" {
+			t.errorf("%s: expected 'by induction <var> from <expr>'", l.Src)
+			return
+		}
+		v := f[1]
+		orig, ok := env.vars[v]
+		if !ok {
+			t.errorf("%s: induction variable %s is not bound by the lemma", l.Src, v)
+			return
+		}
+		base := env.evalSrc(f[3], l.Src)
+		env.vars[v] = base
+		t.oblige("lemma", "lemma#"+l.Label+".base", l.Label, tTrue, env.evalBool(expr, l.Src), l.Src, l.Expr+"  [base "+v+" = "+f[3]+"]")
+		env.vars[v] = orig
+		hyp := env.evalBool(expr, l.Src)
+		next := orig
+		next.S = "(+ " + orig.S + " 1)"
+		env.vars[v] = next
+		step := env.evalBool(expr, l.Src)
+		env.vars[v] = orig
+		t.oblige("lemma", "lemma#"+l.Label+".step", l.Label, tTrue, sImp(sAnd("(>= "+orig.S+" "+base.S+")", hyp), step), l.Src, l.Expr+"  [step "+v+" -> "+v+"+1]")
+		t.assumed["induction principle over the integers (meta-rule of the tool) for lemma "+l.Label] = true
+		return
 	}
 	goal := env.evalBool(expr, l.Src)
 	t.oblige("lemma", "lemma#"+l.Label, l.Label, tTrue, goal, l.Src, l.Expr)
